@@ -273,6 +273,8 @@ func runC09(c *fw.Ctx) {
 		{Kind: "CreateBucket", Bucket: "b2"},
 		// the bucket resource itself: of a bucket that exists, that may not exist yet, that never exists
 		{Kind: "GetBucket", Bucket: "b"}, {Kind: "GetBucket", Bucket: "b2"}, {Kind: "GetBucket", Bucket: "nobucket"},
+		// the bucket deleted with everything in it; the requests above then create it again (explicitly, or by writing)
+		{Kind: "DeleteBucket", Bucket: "b"},
 		L("", "", "1"), L("", "/", "2"), L("d", "/", "1"), L("d/", "", ""), L("a", ".", "1000"),
 		{Kind: "Get", Bucket: "b", Name: "d/x", Form: "public"},
 		{Kind: "GetMeta", Bucket: "b", Name: "a.txt"},
